@@ -45,5 +45,6 @@ Verdict(c, o) ==
             (IF o.so3 = proper /\ o.se3 = proper /\ o.sim3 = proper THEN "ok" ELSE "MembershipWrong")
          ELSE IF c.what = "scaled" THEN          \* 2 R: not SO(3)/SE(3); Sim(3) iff R proper
             (IF ~o.so3 /\ ~o.se3 /\ o.sim3 = proper THEN "ok" ELSE "MembershipWrong")
-         ELSE (IF ~o.so3 /\ ~o.se3 /\ ~o.sim3 THEN "ok" ELSE "MembershipWrong")      \* sheared block / wrong bottom row
+         \* sheared block (also at a small scale, where an absolute tolerance would hide it) / wrong bottom row (also by 1e-9)
+         ELSE (IF ~o.so3 /\ ~o.se3 /\ ~o.sim3 THEN "ok" ELSE "MembershipWrong")
 ==============================================================================
